@@ -218,6 +218,51 @@ fn monitor_remove(kind: Kind, before: &StaticObs, after: &StaticObs, id: u32, no
     }
 }
 
+/// a stage that was just added holds exactly the members given with it (a freed stage id
+/// must not bring former members back), and the earlier stages keep theirs
+fn monitor_added(kind: Kind, before: &StaticObs, after: &StaticObs, given: &[(u64, u32)], out: &mut Vec<(String, String)>) {
+    if kind == Kind::Merkle {
+        return;
+    }
+    let key = format!("C13:{}:added-stage-members", kind.name());
+    let Ok(a) = &after.stages else { return };
+    if a.is_empty() {
+        return;
+    }
+    let id = a.len() - 1;
+    // the given list as a set: first occurrence of an address counts
+    let mut want: Vec<(u64, u64)> = vec![];
+    for (addr, c) in given {
+        if !want.iter().any(|(x, _)| x == addr) {
+            want.push((*addr, if kind == Kind::Flex { *c as u64 } else { 1 }));
+        }
+    }
+    want.sort();
+    let got = after.members_k[id].clone().unwrap_or_default();
+    if got != want {
+        let extra: Vec<u64> = got.iter().filter(|(x, _)| !want.iter().any(|(y, _)| y == x)).map(|x| x.0).collect();
+        out.push((key.clone(), format!("stage {} was added with {} distinct addresses but stores {} ({} of them never given, e.g. {:?})", id, want.len(), got.len(), extra.len(), extra.iter().take(3).collect::<Vec<_>>())));
+    }
+    for j in 0..id.min(4) {
+        if after.members_k[j] != before.members_k[j] {
+            out.push((key.clone(), format!("add_stage changed the members of stage {}", j)));
+        }
+    }
+}
+
+/// one page: ascending addresses strictly after `start_after`, all from the stage's list,
+/// no more than min(limit or 25, 100) and not fewer while entries remain
+fn monitor_page(kind: Kind, so: &StaticObs, id: u32, start_after: Option<u64>, limit: Option<u32>, r: &Result<Vec<(u64, u64)>, String>, out: &mut Vec<(String, String)>) {
+    if kind == Kind::Merkle || id > 3 {
+        return;
+    }
+    let (Ok(all), Ok(page)) = (&so.members_k[id as usize], r) else { return };
+    let want: Vec<(u64, u64)> = all.iter().filter(|(a, _)| start_after.map_or(true, |s| *a > s)).take(limit.unwrap_or(25).min(100) as usize).cloned().collect();
+    if *page != want {
+        out.push((format!("C13:{}:members-page", kind.name()), format!("Members{{stage {}, start_after {:?}, limit {:?}}} returned {} entries, expected {}", id, start_after, limit, page.len(), want.len())));
+    }
+}
+
 // ======================= running one case =======================
 
 fn instants(so: &StaticObs, now: u64) -> Vec<u64> {
@@ -253,6 +298,22 @@ fn run_case(c: &Case) -> Outcome {
         for op in &c.ops {
             match op {
                 Op::Time(t) => w.set_time(*t),
+                Op::Page { id, start_after, limit } => {
+                    let r = w.members_page(*id, *start_after, *limit);
+                    o.impl_steps += 1;
+                    o.hist.push(format!("{}:members_page:{}", k.name(), if r.is_ok() { "ok" } else { "err" }));
+                    monitor_page(k, &cur, *id, *start_after, *limit, &r, &mut o.violations);
+                    steps.push(format!(
+                        "SPage {} {} {} {}",
+                        id,
+                        coq_opt_n(*start_after),
+                        coq_opt_n(limit.map(|x| x as u64)),
+                        match &r {
+                            Ok(v) => format!("(Ok {})", coq_list(&v.iter().map(|(a, c)| format!("({},{})", a, c)).collect::<Vec<_>>())),
+                            Err(_) => "Err".to_string(),
+                        }
+                    ));
+                }
                 Op::Sweep => {
                     steps.push(cur.coq());
                     let now = w.now();
@@ -295,8 +356,24 @@ fn run_case(c: &Case) -> Outcome {
                         let after = w.static_obs();
                         monitor_shape(k, &after, false, &mut o.violations);
                         match op {
-                            Op::AddStage { .. } => monitor_first_future(k, &after, now, "add_stage", &mut o.violations),
-                            Op::RemoveStage { id, .. } => monitor_remove(k, &cur, &after, *id, now, &mut o.violations),
+                            Op::AddStage { members, .. } => {
+                                monitor_first_future(k, &after, now, "add_stage", &mut o.violations);
+                                monitor_added(k, &cur, &after, members, &mut o.violations);
+                            }
+                            Op::RemoveStage { id, .. } => {
+                                monitor_remove(k, &cur, &after, *id, now, &mut o.violations);
+                                // the contract-wide count follows the members that are left
+                                if k != Kind::Merkle {
+                                    let left: usize = after.members_k.iter().map(|r| r.as_ref().map(|l| l.len()).unwrap_or(0)).sum();
+                                    let num = w.q(serde_json::json!({"config": {}})).ok().and_then(|c| c["num_members"].as_u64());
+                                    if num != Some(left as u64) {
+                                        o.violations.push((
+                                            format!("C13:{}:remove-stage", k.name()),
+                                            format!("after remove_stage({}) {} members are stored but Config.num_members = {:?}", id, left, num),
+                                        ));
+                                    }
+                                }
+                            }
                             _ => {}
                         }
                         cur = after;
@@ -708,6 +785,85 @@ fn gen_arrangements(kind: Kind, out: &mut Vec<Case>) {
         vec![u1, Op::Sweep, u2, Op::Sweep, u3, Op::Sweep]));
 }
 
+/// population sizes around the pagination literals of the contracts (default page 25,
+/// maximum page 100) and well beyond: a stage that holds that many members is removed,
+/// or is a LATER stage of the removed one; the freed ids are re-used; >100 addresses in one
+/// add/remove message; explicit pages
+fn gen_population(kind: Kind, sizes: &[u32], out: &mut Vec<Case>) {
+    if kind == Kind::Merkle {
+        return;
+    }
+    let big = |n: u32| -> Vec<(u64, u32)> { (0..n as u64).map(|i| (1000 + i, 1 + (i % 5) as u32)).collect() };
+    let small = |base: u64, n: u64| -> Vec<(u64, u32)> { (0..n).map(|i| (base + i, 2)).collect() };
+    let inst = |members: Vec<Vec<(u64, u32)>>| -> Inst {
+        let mut i = mk_inst(kind, windows(kind, &TOUCH3[..members.len()]), members);
+        i.limit = 1000;
+        i.paid = fee(kind, 1000);
+        i
+    };
+    let probes_for = |n: u32| -> Vec<Probe> {
+        let mut v: Vec<u64> = vec![1000, 1000 + n as u64 / 2, 1000 + n as u64 - 1, 1099, 1100, 1101, 2000, 500, 600];
+        v.retain(|a| *a < 1000 || *a < 1000 + n as u64 || *a == 2000);
+        v.sort();
+        v.dedup();
+        v.into_iter().map(|member| Probe { member, proof: vec![] }).collect()
+    };
+    let readd = |ops: &mut Vec<Op>| {
+        // re-use the freed ids; 2000 is new, 1000 is a former member given again
+        ops.push(Op::AddStage { sender: ADMIN, st: mk_stage(kind, 8, at(20), at(30)), members: vec![(2000, 3), (1000, 4)] });
+        ops.push(Op::AddStage { sender: ADMIN, st: mk_stage(kind, 9, at(30), at(40)), members: vec![(2000, 5)] });
+        ops.push(Op::Sweep);
+    };
+    for &n in sizes {
+        // the removed stage itself is the big one
+        let mut ops = vec![Op::RemoveStage { sender: ADMIN, id: 1 }, Op::Sweep];
+        readd(&mut ops);
+        out.push(Case { label: format!("population:{}-in-removed-stage", n), kind, now0: T0, inst: inst(vec![small(500, 3), big(n), small(600, 5)]), probes: probes_for(n), ops });
+        // the big stage is a later stage of the removed one
+        let mut ops = vec![Op::RemoveStage { sender: ADMIN, id: 1 }, Op::Sweep];
+        readd(&mut ops);
+        out.push(Case { label: format!("population:{}-in-later-stage", n), kind, now0: T0, inst: inst(vec![small(500, 3), small(600, 5), big(n)]), probes: probes_for(n), ops });
+    }
+    for &n in sizes {
+        if n < 90 && n != 26 {
+            continue;
+        }
+        // n addresses in one add_members, removed again in one remove_members, then as the list of an add_stage
+        let all: Vec<u64> = big(n).into_iter().map(|x| x.0).collect();
+        out.push(Case {
+            label: format!("population:{}-in-one-message", n),
+            kind,
+            now0: T0,
+            inst: inst(vec![small(500, 3), small(600, 2)]),
+            probes: probes_for(n),
+            ops: vec![
+                Op::AddMembers { sender: ADMIN, id: 1, members: big(n) },
+                Op::Sweep,
+                Op::RemoveMembers { sender: ADMIN, id: 1, members: all },
+                Op::AddStage { sender: ADMIN, st: mk_stage(kind, 8, at(30), at(40)), members: big(n) },
+                Op::Sweep,
+                Op::RemoveStage { sender: ADMIN, id: 2 },
+                Op::Sweep,
+            ],
+        });
+    }
+    // explicit pages over a 130-member stage: every limit around the two literals, cursors
+    // at the page edge, at an absent address and past the end
+    let mut ops = vec![];
+    for limit in [None, Some(0u32), Some(1), Some(24), Some(25), Some(26), Some(99), Some(100), Some(101), Some(30000), Some(u32::MAX)] {
+        ops.push(Op::Page { id: 1, start_after: None, limit });
+        ops.push(Op::Page { id: 1, start_after: Some(1098), limit });
+    }
+    for sa in [999u64, 1000, 1024, 1099, 1100, 1128, 1129, 1130, 5000] {
+        ops.push(Op::Page { id: 1, start_after: Some(sa), limit: Some(100) });
+        ops.push(Op::Page { id: 1, start_after: Some(sa), limit: None });
+    }
+    ops.push(Op::Page { id: 0, start_after: None, limit: None });
+    ops.push(Op::Page { id: 3, start_after: None, limit: None });
+    ops.push(Op::Page { id: 7, start_after: None, limit: Some(5) });
+    out.push(Case { label: "population:pages".into(), kind, now0: T0, inst: inst(vec![small(500, 3), big(130)]), probes: probes_for(130), ops });
+}
+
 /// structured random history, generated against the live contract (reads Stages to choose
 /// mostly-valid arguments), then replayed from scratch by run_case
 fn gen_history(rng: &mut Rng, kind: Kind, idx: usize) -> Case {
@@ -867,6 +1023,30 @@ fn gen_cases(a: &Args) -> Vec<Case> {
     for kind in Kind::all() {
         gen_inst_probes(kind, &lits, &mut cases);
         gen_exec_probes(kind, &mut cases);
+    }
+    // list sizes: the pagination literals of the member queries +-1, and well beyond them
+    let mut sizes: BTreeSet<u32> = [130u32, 250].into_iter().collect();
+    for l in harvest_literals(&[
+        "contracts/whitelists/tiered-whitelist/src/contract.rs",
+        "contracts/whitelists/tiered-whitelist-flex/src/contract.rs",
+    ]) {
+        if (20..=200).contains(&l) {
+            for d in [l - 1, l, l + 1] {
+                sizes.insert(d as u32);
+            }
+        }
+    }
+    for must in [24u32, 25, 26, 99, 100, 101] {
+        sizes.insert(must);
+    }
+    if a.thorough() {
+        for more in [150u32, 199, 200, 201, 300, 400] {
+            sizes.insert(more);
+        }
+    }
+    let sizes: Vec<u32> = sizes.into_iter().collect();
+    for kind in Kind::all() {
+        gen_population(kind, &sizes, &mut cases);
     }
     let nh = if a.thorough() { 600 } else { 40 };
     for i in 0..nh {
